@@ -22,10 +22,12 @@ package utility
 //@   option intmode=math cases=decimal:0:18
 //@   requires ten != nil
 //@   requires [decimals] decimal >= 0 && decimal <= 18
-//@   requires [domain] len(s) > 0 ==> (exists m Int :: real(m) == decval(s) * real(@pow10(decimal)) && m < 1000000000000000000000000000000000000000000000000000000000000000000000000000000000000000000000000 && m > 0 - 1000000000000000000000000000000000000000000000000000000000000000000000000000000000000000000000000)
-//@   ensures [exact] result1 == nil && len(s) > 0 ==> real(big(result0)) == decval(s) * real(@pow10(decimal))
+//@   # exactness holds on the domain where the scaled value is an integer of at most 96 digits (512-bit floats)
+//@   ensures [exact] result1 == nil && len(s) > 0 && (exists m Int :: real(m) == decval(s) * real(@pow10(decimal)) && m < 1000000000000000000000000000000000000000000000000000000000000000000000000000000000000000000000000 && m > 0 - 1000000000000000000000000000000000000000000000000000000000000000000000000000000000000000000000000) ==> real(big(result0)) == decval(s) * real(@pow10(decimal))
 //@   ensures [empty] len(s) == 0 ==> result1 == nil && big(result0) == 0
 //@   ensures [err]   result1 != nil ==> result0 == nil
+//@   ensures [valid] decvalid(s) ==> result1 == nil
+//@   ensures [fresh] result1 == nil ==> result0 != nil && fresh(result0)
 //@   modifies nothing
 
 //@ smt (define-fun pow10 ((d Int)) Int (ite (= d 0) 1 (ite (= d 1) 10 (ite (= d 2) 100 (ite (= d 3) 1000 (ite (= d 4) 10000 (ite (= d 5) 100000 (ite (= d 6) 1000000 (ite (= d 7) 10000000 (ite (= d 8) 100000000 (ite (= d 9) 1000000000 (ite (= d 10) 10000000000 (ite (= d 11) 100000000000 (ite (= d 12) 1000000000000 (ite (= d 13) 10000000000000 (ite (= d 14) 100000000000000 (ite (= d 15) 1000000000000000 (ite (= d 16) 10000000000000000 (ite (= d 17) 100000000000000000 1000000000000000000)))))))))))))))))))
@@ -36,6 +38,20 @@ package utility
 //@   property C18
 //@   option intmode=math cases=precision:0:18
 //@   ensures [value] n != nil ==> @dv(result) * real(@dpow10(precision)) == real(old(big(n)))
+//@   ensures [valid] @dvalid(result) && len(result) > 0
+//@   modifies nothing
+
+// The 18-decimal formatter used for balances, and the parser applied to its output: format-then-parse is the
+// identity (C18 round trip), shown on the two real compositions of formatter and parser in this package -
+// FormatDecimalForERC20(n, 18) = strToBigInt(BigIntToStr(n), 18) and FormatDecimalForRocket(n, 18) =
+// StrToBigInt(bigIntToStr(n, 18)) - for every n of at most 96 decimal digits (balances and EVM words have 78).
+// In these functions decval/decvalid of the parser's contract are the digit theory's dv/dvalid (option digits).
+//@ func BigIntToStr
+//@   property C18
+//@   option intmode=math digits
+//@   ensures [value] number != nil ==> @dv(result) * real(@dpow10(18)) == real(old(big(number)))
+//@   ensures [nil]   number == nil ==> @dv(result) == real(0)
+//@   ensures [valid] @dvalid(result) && len(result) > 0
 //@   modifies nothing
 
 //@ func Uint64ToBigInt
@@ -44,11 +60,15 @@ package utility
 //@   ensures [value] result != nil && big(result) == number * 1000000000000000000
 //@   modifies nothing
 
-// The exported wrapper, as seen by callers that only need the shape of the result (the value is C18's
-// strToBigInt contract at decimal = 18): any sign is possible.
+// The exported wrapper: the parser at 18 decimals.
 //@ func StrToBigInt
-//@   option trusted
+//@   property C18
+//@   option intmode=math
+//@   requires [env!init] ten != nil
 //@   ensures [shape] (result1 == nil) == (result0 != nil)
+//@   ensures [exact] result1 == nil && len(s) > 0 && (exists m Int :: real(m) == decval(s) * real(@pow10(18)) && m < 1000000000000000000000000000000000000000000000000000000000000000000000000000000000000000000000000 && m > 0 - 1000000000000000000000000000000000000000000000000000000000000000000000000000000000000000000000000) ==> real(big(result0)) == decval(s) * real(@pow10(18))
+//@   ensures [valid] decvalid(s) ==> result1 == nil
+//@   ensures [fresh] result1 == nil ==> fresh(result0)
 //@   modifies nothing
 
 // Decimal rescaling between the 18-decimal internal unit and a token's own decimals (C18's conversion applied
@@ -57,13 +77,18 @@ package utility
 //@ spec abstract fn fmtRocket(n Int, d int64) Int
 
 //@ func FormatDecimalForERC20
-//@   option trusted
-//@   ensures result != nil && fresh(result) && (number != nil ==> big(result) == fmt20(old(big(number)), decimal))
+//@   property C18
+//@   option intmode=math digits cases=decimal:18:18
+//@   requires ten != nil
+//@   ensures [general!assumed] result != nil && fresh(result) && (number != nil ==> big(result) == fmt20(old(big(number)), decimal))
+//@   ensures [identity18] decimal == 18 && number != nil && old(big(number)) < 1000000000000000000000000000000000000000000000000000000000000000000000000000000000000000000000000 && old(big(number)) > 0 - 1000000000000000000000000000000000000000000000000000000000000000000000000000000000000000000000000 ==> result != nil && big(result) == old(big(number))
 //@   modifies nothing
 
 //@ func FormatDecimalForRocket
-//@   option trusted
-//@   ensures result != nil && fresh(result) && (number != nil ==> big(result) == fmtRocket(old(big(number)), decimal))
+//@   property C18
+//@   option intmode=math digits cases=decimal:18:18
+//@   ensures [general!assumed] result != nil && fresh(result) && (number != nil ==> big(result) == fmtRocket(old(big(number)), decimal))
+//@   ensures [identity18] decimal == 18 && number != nil && old(big(number)) < 1000000000000000000000000000000000000000000000000000000000000000000000000000000000000000000000000 && old(big(number)) > 0 - 1000000000000000000000000000000000000000000000000000000000000000000000000000000000000000000000000 ==> result != nil && big(result) == old(big(number))
 //@   modifies nothing
 
 //@ func IsEmptyByteSlice
